@@ -15,7 +15,7 @@ Fib == { [Base("fib", v) EXCEPT !.name = n, !.faceId = f, !.cost = k, !.hasParam
            v \in {"add-nexthop", "remove-nexthop"}, n \in {A, AB}, f \in {-1, 800, 9999}, k \in {-1, 5}, hp \in BOOLEAN }
 Str == { [Base("strategy-choice", v) EXCEPT !.name = n, !.strat = s, !.stratName = IF s = "ok" THEN "multicast" ELSE "", !.hasName = hn] :
            v \in {"set", "unset"}, n \in {<<>>, A}, s \in {"ok", "bare", "unknown", ""}, hn \in BOOLEAN }
-Cs == { [Base("cs", "config") EXCEPT !.hasName = FALSE, !.capacity = k, !.hasParams = hp] : k \in {-1, 5, -2}, hp \in BOOLEAN }
+Cs == { [Base("cs", "config") EXCEPT !.hasName = FALSE, !.capacity = k, !.hasParams = hp, !.flagsMask = fm] : k \in {-1, 5, -2}, hp \in BOOLEAN, fm \in {"none", "both", "flags"} }
 Fac == { [Base("faces", v) EXCEPT !.hasName = FALSE, !.faceId = f, !.mtu = m, !.flagsMask = fm] :
            v \in {"update", "destroy"}, f \in {-1, 800, 9999}, m \in {-1, 0, 100, 1500}, fm \in {"none", "both", "flags"} }
 Short == { [Base(m, "") EXCEPT !.hasParams = FALSE, !.hasName = FALSE] : m \in {"", "rib", "faces"} }
